@@ -15,7 +15,7 @@ fi
 mkdir -p "$SCR/src/zzsimrt" "$SCR/src/zzsimharness" "$SCR/src/zzconstructs"
 cp "$HERE"/constructs/*.go "$SCR/src/zzconstructs/" || exit 2
 cp "$HERE"/simrt/*.go "$SCR/src/zzsimrt/" || exit 2
-"$HERE/bin/instrument" -root "$SCR/src" -go $GO -pkgs dhcpv4/nclient4,dhcpv6/nclient6,dhcpv4/server4,dhcpv6/server6,zzconstructs -report "$SCR/instrument.json" || { echo "build.sh: instrumentation failed" >&2; exit 2; }
+"$HERE/bin/instrument" -root "$SCR/src" -go $GO -pkgs dhcpv4/nclient4,dhcpv6/nclient6,dhcpv4/server4,dhcpv6/server6,zzconstructs -varpkgs dhcpv4,dhcpv6,rfc1035label,iana -report "$SCR/instrument.json" || { echo "build.sh: instrumentation failed" >&2; exit 2; }
 cp "$HERE"/harness/*.go "$SCR/src/zzsimharness/" || exit 2
 (cd "$SCR/src" && $GO test -vet=off -c -o "$SCR/sim.test" ./zzsimharness) || { echo "build.sh: harness build failed" >&2; exit 2; }
 echo "built $SCR/sim.test"
